@@ -172,7 +172,18 @@ func TestC10ChannelsThatComeBack(t *testing.T) {
 // reach it from other programs on the same host (same address, other ports) and from another address; each valid
 // frame is one frame event on that channel, per sender in the order sent, whoever sent it.
 func TestC10BroadcastEndpointHearsEveryone(t *testing.T) {
-	rec := evid.New(t, "C10", "an EndpointUDPBroadcast bound to 127.0.0.1:port (or :port) receives 5..40 tagged frames each from 2..4 senders: UDP sockets on 127.0.0.1 (the endpoint's own address, other ports) and on 127.0.0.2, sending in generated interleavings; one open event, then exactly one frame event per frame on that one channel, per sender in the order sent, none lost; non-trivial = a sender on the endpoint's own address; distinct by hash of the parameters")
+	broadcastHearsEveryone(t, "C10", "TestC10BroadcastEndpointHearsEveryone")
+}
+
+// TestC02BroadcastEndpointDeliversEveryWellFormedFrame: the checksum gate is the only gate - a well-formed frame with
+// the right checksum is delivered whoever sent it, also on a broadcast endpoint and also when the sender is a station
+// configured with the same system and component id as the node.
+func TestC02BroadcastEndpointDeliversEveryWellFormedFrame(t *testing.T) {
+	broadcastHearsEveryone(t, "C02", "TestC02BroadcastEndpointDeliversEveryWellFormedFrame")
+}
+
+func broadcastHearsEveryone(t *testing.T, pid, testName string) {
+	rec := evid.New(t, pid, "an EndpointUDPBroadcast bound to 127.0.0.1:port (or :port) receives 5..40 tagged frames each from 2..4 senders: UDP sockets on 127.0.0.1 (the endpoint's own address, other ports) and on 127.0.0.2, the first of them a station that uses the node's own system and component id, sending in generated interleavings; one open event, then exactly one frame event per frame on that one channel, per sender in the order sent, none lost; non-trivial = a sender on the endpoint's own address; distinct by hash of the parameters")
 	rec.Require("sender-on-the-endpoint's-own-address")
 	evid.Check(t, rec, evid.N(40, 200), func(t *rapid.T) {
 		drawNodeInit(t)
@@ -186,7 +197,14 @@ func TestC10BroadcastEndpointHearsEveryone(t *testing.T) {
 			local = fmt.Sprintf(":%d", port)
 		}
 		n := &gomavlib.Node{Endpoints: []gomavlib.EndpointConf{gomavlib.EndpointUDPBroadcast{BroadcastAddress: fmt.Sprintf("127.255.255.255:%d", sim.FreePort()), LocalAddress: local}},
-			Dialect: ardupilotmega.Dialect, OutVersion: gomavlib.V2, OutSystemID: nodeSys, HeartbeatDisable: true}
+			Dialect: ardupilotmega.Dialect, OutVersion: gomavlib.V2, OutSystemID: nodeSys, OutComponentID: nodeComp, HeartbeatDisable: true}
+		if rapid.Bool().Draw(t, "component_id_left_at_its_default") {
+			n.OutComponentID = 0 // the node then sends as component 1
+		}
+		ownComp := byte(nodeComp)
+		if n.OutComponentID == 0 {
+			ownComp = 1
+		}
 		if err := initNode(&n); err != nil {
 			t.Fatalf("BROKEN: %v", err)
 		}
@@ -197,7 +215,7 @@ func TestC10BroadcastEndpointHearsEveryone(t *testing.T) {
 		}()
 		fail := func(format string, a ...interface{}) {
 			msg := desc + "\n" + fmt.Sprintf(format, a...)
-			evid.ReplayNote("C10", "TestC10BroadcastEndpointHearsEveryone", msg)
+			evid.ReplayNote(pid, testName, msg)
 			t.Fatalf("%s", msg)
 		}
 		var socks []net.PacketConn
@@ -225,7 +243,13 @@ func TestC10BroadcastEndpointHearsEveryone(t *testing.T) {
 			for sent[i] >= per {
 				i = (i + 1) % ns
 			}
-			if _, err := socks[i].WriteTo(tagged(byte(i+1), sent[i], "debug", true, nil, 0).Bytes(), dst); err != nil {
+			f := tagged(byte(i+1), sent[i], "debug", true, nil, 0)
+			if i == 0 {
+				// another station with the ids this node sends under
+				f.Sys, f.Comp = nodeSys, ownComp
+				f.Checksum = f.ChecksumFor(lay(debugMsgID).CRCExtra)
+			}
+			if _, err := socks[i].WriteTo(f.Bytes(), dst); err != nil {
 				t.Fatalf("BROKEN: send: %v", err)
 			}
 			sent[i]++
